@@ -155,6 +155,20 @@ class Vocab(object):
         return "".join(parts)
 
 
+# table names are user data: short ones, prefixes of each other, parts of the word "public"
+NAME_POOL = ["pub", "p", "T", "T10", "T1 ", "Public", "public2", "li", "\u00e9-table", "", "private", "t1", "c"]
+
+
+def name_map(seed, p=0.3):
+    """Per-run names the library is given for the tables the events call T1, T2, T3 (own stream,
+    so that the events of a seed do not depend on whether a map was drawn)."""
+    r = random.Random("names:%s" % (seed,))
+    if r.random() >= p:
+        return None
+    picks = r.sample(NAME_POOL, 3)
+    return {"T1": picks[0], "T2": picks[1], "T3": picks[2]}
+
+
 # --------------------------------------------------------------------------- C09
 def gen_read(rng, V, tbl="public", name=None, route=None, means=None):
     if name is None:
